@@ -262,6 +262,9 @@ func (m *Message) Clone() *Message {
 	return &Message{
 		Ctx:    m.Ctx,
 		Record: m.Record.Clone(),
+		// a filtered message stays filtered in every fan-out branch,
+		// otherwise the destinations write a record a processor filtered out
+		filtered: m.filtered,
 	}
 }
 
